@@ -49,7 +49,8 @@ func (g *gen) release() Op {
 // tickOp: one round of the counter manager; the server answers the request (if one is sent) with accept mostly
 func (g *gen) tickOp(acceptPercent int) Op {
 	// never within (95 ms, 100 ms) of the previous answer: the wrapper compares the wall clock with 100 ms
-	g.now += rig.Pick(g.c.Rng, []int64{sec / 20, sec / 5, 9 * sec / 10, 9 * sec / 10, sec, 3 * sec, 5 * sec})
+	// the judge demands a request at the latest resyncBound = 10 s after the last contact (the code's period is 2 s)
+	g.now += rig.Pick(g.c.Rng, []int64{sec / 20, sec / 5, 9 * sec / 10, 9 * sec / 10, sec, 3 * sec, 5 * sec, 12 * sec, 12 * sec, 25 * sec})
 	op := Op{Op: "tick", Now: g.now}
 	switch x := g.n(100); {
 	case x < acceptPercent:
